@@ -99,7 +99,7 @@ theorem rowLine_ok (r : List Word) (h : ∀ w ∈ r, CellOk w) :
 theorem layoutOf_ok (nc : Bool) (pre : List Line) (b : Block) (hpre : ∀ l ∈ pre, l.Skip) (hb : BlockOk b) :
     (layoutOf nc pre b).Ok := by
   obtain ⟨hname, hcols, hcn, hrows⟩ := hb
-  have hl := labelLines_ok (nc && !isStopgap b.name) 1 b.cols hcn
+  have hl := labelLines_ok (nc && !isStopgap b.name) Gen.C02.labelStart b.cols hcn
   refine ⟨hpre, ?_, ?_, ?_, rfl, hname.2, ?_, rfl, rfl, hcols, hl.1, hl.2, ?_⟩
   · intro l hl'; simp only [layoutOf, List.mem_singleton] at hl'; subst hl'; exact eLine_skip
   · intro l hl'
